@@ -485,3 +485,45 @@ Qed.
 (* and the kind of an encoded record is the one its constructor names *)
 Lemma enc_type_byte s : nth_error (enc_sdr s) 3 = Some (s_type s).
 Proof. reflexivity. Qed.
+
+(* ---- arbitrary data: header of whatever record comes back; short data; injectivity ---- *)
+Local Opaque N.mul N.add.
+
+Lemma common_header_5 d0 d1 d2 d3 d4 rest :
+  common_header (d0 :: d1 :: d2 :: d3 :: d4 :: rest) = Ok (mkHdr (d0 + 256 * d1) d2 d3 d4).
+Proof. reflexivity. Qed.
+
+Lemma common_header_short d : (length d < 5)%nat -> common_header d = Err DecodingError.
+Proof.
+  destruct d as [|d0 [|d1 [|d2 [|d3 [|d4 r]]]]]; cbn [length]; intros H; try reflexivity; lia.
+Qed.
+
+Lemma short_rejected d : (length d < 5)%nat -> exists e, sdr_from_data d = Err e.
+Proof.
+  intros H. unfold sdr_from_data. destruct (nth_error d 3); [|eexists; reflexivity].
+  rewrite (common_header_short d H). eexists; reflexivity.
+Qed.
+
+Lemma header_any d r : sdr_from_data d = Ok r ->
+  exists d0 d1 d2 d3 d4 rest, d = d0 :: d1 :: d2 :: d3 :: d4 :: rest /\
+    record_hdr r = mkHdr (d0 + 256 * d1) d2 d3 d4.
+Proof.
+  intros H.
+  destruct (Nat.ltb_spec (length d) 5) as [Hs|Hl].
+  { destruct (short_rejected d Hs) as [e He]. congruence. }
+  destruct d as [|d0 [|d1 [|d2 [|d3 [|d4 rest]]]]]; cbn [length] in Hl; try lia.
+  exists d0, d1, d2, d3, d4, rest. split; [reflexivity|].
+  revert H. unfold sdr_from_data. cbn [nth_error]. rewrite common_header_5. cbn [bind].
+  repeat match goal with
+  | |- context [if ?c then _ else _] => destruct c
+  end;
+  try (match goal with |- context [bind ?x _] => destruct x end; cbn [bind]);
+  intros [= <-]; reflexivity.
+Qed.
+
+(* distinct attribute sets never share an encoding *)
+Lemma enc_injective s s' : in_range s -> in_range s' -> enc_sdr s = enc_sdr s' -> expected s = expected s'.
+Proof.
+  intros H H' E. pose proof (parse_enc s H) as P. pose proof (parse_enc s' H') as P'.
+  rewrite E in P. congruence.
+Qed.
